@@ -1,7 +1,11 @@
 package c11
 
 import (
+	"bytes"
+	"fmt"
 	"testing"
+
+	"github.com/cilium/statedb/part"
 
 	"verifharness/partsim"
 	"verifharness/vkit"
@@ -10,6 +14,15 @@ import (
 const rule = "random histories of part.Tree transactions (insert/modify/delete/reads/clones/iterators, grow/shrink fan-out phases, " +
 	"abandoned transactions, un-notified side branches from older versions) checked against a sorted-map model; " +
 	"non-trivial = at least one retained older version, clone or iterator was re-verified after a later transaction that changed keys; distinct = hash of the operation log"
+
+func runLong(t *testing.T, part string, n int) {
+	r := vkit.Start(t, "C11", part, "exploration", rule+" (long-key variant: most keys start with one of three nested stems of 200-5000 bytes)")
+	r.Require("persistence_rechecks", "notified_commits")
+	r.ParallelCases(n, vkit.Workers(), func(i int) {
+		partsim.RunHistory(r, i, partsim.Opts{LongKeys: true, CheckContents: true, Txns: 14, MaxOps: 12})
+	})
+	r.Finish()
+}
 
 func run(t *testing.T, part string, rootOnly bool, n int) {
 	r := vkit.Start(t, "C11", part, "exploration", rule)
@@ -23,6 +36,54 @@ func run(t *testing.T, part string, rootOnly bool, n int) {
 
 func TestVerif_Model(t *testing.T)         { run(t, "model", false, vkit.N(3000, 150000)) }
 func TestVerif_ModelRootOnly(t *testing.T) { run(t, "model-rootonly", true, vkit.N(600, 30000)) }
+func TestVerif_ModelLongKeys(t *testing.T) { runLong(t, "model-longkeys", vkit.N(400, 20000)) }
+
+// Key length limit: one probe per length. Lengths of 65536 bytes and more fail today (16-bit length fields): known findings.
+func TestVerif_KeyLengthLimit(t *testing.T) {
+	r := vkit.Start(t, "C11", "key-length", "exploration", "one probe per key length n in {255, 256, 257, 4096, 65534, 65535, 65536, 70000, 131072}: insert a^n and a^n+b, read both back with Get, Prefix, LowerBound and iteration; distinct = n")
+	r.Require("probes")
+	for i, n := range []int{255, 256, 257, 4096, 65534, 65535, 65536, 70000, 131072} {
+		for _, probe := range [][]byte{bytes.Repeat([]byte{'a'}, n)} {
+			tr := part.New[int]()
+			k2 := append(bytes.Clone(probe[:n-1]), 'b')
+			_, _, tr = tr.Insert(probe, 1)
+			_, _, tr = tr.Insert(k2, 2)
+			_, _, tr = tr.Insert([]byte("zz"), 3)
+			bad := ""
+			if v, _, ok := tr.Get(probe); !ok || v != 1 {
+				bad = "Get of the inserted key fails"
+			}
+			if v, _, ok := tr.Get(k2); !ok || v != 2 {
+				bad = "Get of the inserted sibling key fails"
+			}
+			cnt := 0
+			for k, v := range tr.All {
+				cnt++
+				if v == 1 && !bytes.Equal(k, probe) || v == 2 && !bytes.Equal(k, k2) {
+					bad = "iteration returns a different key than was inserted"
+				}
+			}
+			if cnt != 3 || tr.Len() != 3 {
+				bad = "wrong number of entries"
+			}
+			it, _ := tr.Prefix(probe[:n-1])
+			pc := 0
+			for range it.All {
+				pc++
+			}
+			if pc != 2 && bad == "" {
+				bad = "Prefix of the common stem does not return both keys"
+			}
+			r.Count("probes", 1)
+			r.Case(uint64(n), true)
+			if bad != "" {
+				r.Violation(fmt.Sprintf("key-length/n=%d", n), i, map[string]any{"message": fmt.Sprintf("keys of %d bytes: %s", n, bad)})
+			}
+		}
+	}
+	r.Sample(map[string]any{"lengths": []int{255, 256, 257, 4096, 65534, 65535, 65536, 70000, 131072}})
+	r.Finish()
+}
 
 // Race/checkptr slice: the same histories under the race detector (which also enables checkptr for the
 // unsafe node casts) with several histories running concurrently.
